@@ -229,7 +229,6 @@ func runServer(vals []srvValue) *bbResult {
 		res.counters["server_connections_ended_early"]++
 	}
 	mu.Lock()
-	defer mu.Unlock()
 	if c := recs["ctl"]; c == nil || c.count != 1 || c.hasDL {
 		if !connEnded {
 			v("bb-control-stream", "a request without grpc-timeout must reach the handler once without a deadline, got %+v", c)
@@ -310,6 +309,7 @@ func runServer(vals []srvValue) *bbResult {
 			res.sigs = append(res.sigs, "srv:"+sv.Class+"/"+sv.V[len(sv.V)-1:])
 		}
 	}
+	mu.Unlock()
 	peer.Close()
 	fx.S.Stop()
 	<-peer.Done()
